@@ -9,13 +9,25 @@ use profirust::time::Instant;
 use serde_json::{json, Value};
 use std::sync::Arc;
 
-pub const BAUDS: [(profirust::Baudrate, u64); 5] = [
+/// Every baud rate of the stack with its NOMINAL bit rate: the simulated bus and all timing oracles
+/// use the number given here, never `Baudrate::to_rate()` (a slip in the library's rate table is
+/// therefore a timing violation, not a consistent rescaling). New entries are appended so that the
+/// indices stored in replay files stay valid.
+pub const BAUDS: [(profirust::Baudrate, u64); 11] = [
     (profirust::Baudrate::B9600, 9600),
     (profirust::Baudrate::B19200, 19200),
     (profirust::Baudrate::B500000, 500000),
     (profirust::Baudrate::B1500000, 1500000),
     (profirust::Baudrate::B12000000, 12000000),
+    (profirust::Baudrate::B31250, 31250),
+    (profirust::Baudrate::B45450, 45450),
+    (profirust::Baudrate::B93750, 93750),
+    (profirust::Baudrate::B187500, 187500),
+    (profirust::Baudrate::B3000000, 3000000),
+    (profirust::Baudrate::B6000000, 6000000),
 ];
+/// builder minimum of the slot time per BAUDS index
+pub const MIN_SLOT: [u16; 11] = [100, 100, 200, 300, 1000, 100, 100, 100, 100, 400, 600];
 
 #[derive(Clone, Copy, Debug, PartialEq, Eq, Hash)]
 pub enum Gap {
